@@ -39,6 +39,7 @@ REQUIRED = {
         'T-argument-forms-vs-scalar': 200,
         'sy-argument-forms-vs-scalar': 20,
         'T-refusals-above-ceiling-repeated-on-the-same-array': 50,
+        'T-refusals-above-ceiling-in-arrays-with-a-missing-reading': 20,
         'dumped-sy-values-checked': 100,
         'dumped-T-values-checked': 100,
     }
@@ -157,6 +158,10 @@ def check_T(ctx, rng, params):
     # refused above the ceiling (also when only one element of an array is above)
     above = zmax_mm + rng.choice([1e-6 * max(1.0, abs(zmax_mm)), 0.5, 10.0, 1e4])
     arg = above if rng.random() < 0.5 else np.array(levels + [above])
+    if isinstance(arg, np.ndarray) and rng.random() < 0.3:
+        # a series with a missing reading (NaN) next to the level above the ceiling
+        arg = np.array([float('nan')] + levels + [above] if rng.random() < 0.5 else levels + [above, float('nan')])
+        rec.hit('T-refusals-above-ceiling-in-arrays-with-a-missing-reading')
     try:
         v = T(arg)
     except ValueError:
@@ -164,7 +169,7 @@ def check_T(ctx, rng, params):
         if isinstance(arg, np.ndarray):
             # the refusal is repeatable and leaves the caller's array alone
             rec.hit('T-refusals-above-ceiling-repeated-on-the-same-array')
-            if not np.array_equal(arg, np.array(levels + [above])):
+            if not (np.isnan(arg).any() or np.array_equal(arg, np.array(levels + [above]))):
                 rec.violation('T:argument-array-is-modified-by-the-call', {'params': params, 'refused': True}, dict(case, levels=levels + [above]), 'peatclsm_T')
                 return
             try:
